@@ -355,6 +355,11 @@ Section WF.
       * pose proof (wf_cfg_get _ _ _ _ Hw0 Eg) as Hl. unfold wf_slot in Hl. rewrite Ef in Hl. apply wf_val_list in Hl. exact Hl.
       * eapply make_item_wf; eauto.
     - inversion H; subst. exact Hw.
+    - destruct parsed as [t| |]; try (inversion H; subst; exact Hw).
+      unfold Config.load_tree in H. destruct t; try (inversion H; subst; exact Hw).
+      destruct (load_keys d w pre c fs dyn) as [[w1 c1] o1] eqn:E.
+      assert (Hc1 : wf_cfg fs c1) by (eapply load_keys_wf; eauto).
+      destruct o1; inversion H; subst; exact Hc1.
   Qed.
 
   (* C01, one step: whatever the operation, wherever it is addressed, accepted or rejected *)
